@@ -425,9 +425,9 @@ def genmsg_cfg(K, part, prop):
     return ("genmsg_%s_%d.cfg" % (part, K),
             "SPECIFICATION Spec\nCONSTANTS\n  OffsMod = 65536\n  K = %d\n  Part = \"%s\"\n  Prop = \"%s\"\nINVARIANTS Emit\nCHECK_DEADLOCK FALSE\n" % (K, part, prop))
 
-def gen_corpus(ctx, K, part, prop, keep_every=1):
+def gen_corpus(ctx, K, part, prop, keep_every=1, timeout=1500):
     """Run the generator in TLC, replay its records on the code, and return a file with the generated wires."""
-    r = vlib.run_tlc("MC_GenMsg", genmsg_cfg(K, part, prop), workers=8, timeout=1500)
+    r = vlib.run_tlc("MC_GenMsg", genmsg_cfg(K, part, prop), workers=8, timeout=timeout)
     if not r["ok"]:
         raise Machinery("TLC failed on MC_GenMsg %s K=%d:\n%s" % (part, K, r["tail"]))
     ctx.states += r["distinct"]; ctx.transitions += r["generated"]
@@ -540,9 +540,9 @@ def plan_C07(ctx):
         "the intended list (type by the documented table, name span, trimmed value span, count, type flags, first of type, stored "
         "prefix for small capacities); every record is executed on the real parser and compared on exactly those keys.")
     gen_corpus(ctx, 1, "hdrs", "C07")
-    gen_corpus(ctx, 2 if ctx.quick else 3, "hdrs" if ctx.quick else "caps", "C07")
-    gen_corpus(ctx, 2 if ctx.quick else 3, "caps", "C07")
-    if not ctx.quick: gen_corpus(ctx, 2, "hdrs", "C07")
+    gen_corpus(ctx, 2, "hdrs", "C07")
+    gen_corpus(ctx, 2 if ctx.quick else 4, "caps", "C07")
+    if not ctx.quick: gen_corpus(ctx, 3, "hdrs", "C07", timeout=7200)      # every block of three pool lines (0.54 M messages)
     cleanup(ctx)
     ctx.nontrivial = ctx.records
     ctx.need("generated header blocks replayed", ctx.records, 1000)
